@@ -2,7 +2,7 @@
    of F5), which compared iteration numbers as strings at three sites. *)
 From Coq Require Import String List NArith.
 Import ListNotations.
-Require Import V.Lib.PyStr V.Loop.Model V.Loop.Proofs.
+Require Import V.Lib.PyStr V.Loop.Model V.Loop.Proofs V.Loop.Edges V.Loop.Subst.
 Open Scope N_scope.
 
 (* F5 (repaired by a fix: commit): with the string key and k = 10 the newest instance is iteration 9, an outside
@@ -20,3 +20,42 @@ Proof.
   split; [exact ex_doc_wf|]. split; [left; reflexivity|]. vm_compute. repeat split.
 Qed.
 Print Assumptions C05_string_key_refuted.
+
+(* F5b (repaired by a fix: commit d93f459): compute_dowhile_state selected the instances of the condition's producer
+   by NAME only.  With two looped components named "x" in stages 0 and 1 and the condition stage1.x/f:output, the
+   by-name selection returns the instance of stage 0 — not an instance of the condition's component. *)
+Theorem C05_cond_by_name_refuted :
+  exists (d : dowhile) (out : list ocomp) (x : inst), wf_doc d /\
+    argmax KeyInt (cond_insts_by_name d (w_loop (unroll d out 2))) = Some x /\
+    id_eqb (i_stage x, bp_name (i_name x)) (cond_id d) = false /\
+    inst_node x = "stage0.2#x"%string /\
+    cur_cond (unroll d out 2) = "stage1.2#x/f:output"%string.
+Proof.
+  exists ex_doc2, ex_out2. eexists. split; [exact ex_doc2_wf|]. vm_compute. repeat split.
+Qed.
+Print Assumptions C05_cond_by_name_refuted.
+
+(* The hypothesis [no_agg_loopb] of C05_edges_local is necessary in the model: with a :loopref loop binding the
+   consumer instance 1#agg references the placeholder of "prod" and receives an edge from the LATER instance
+   2#prod (model only: the real code cannot load such a document without a second DoWhile). *)
+Theorem C05_agg_loop_binding_forward_edge_refuted :
+  exists (d : dowhile) (out : list ocomp), wf_doc d /\ ~ no_agg_loopb d /\
+    existsb (edge_eqb ("stage1.2#prod", "stage1.1#agg")%string) (w_edges (unroll d out 2)) = true.
+Proof.
+  exists ex_doc3, ex_out3. split; [exact ex_doc3_wf|]. split.
+  - intros H. specialize (H "b0"%string (mk_lb None "prod" "" "loopref") eq_refl). discriminate H.
+  - vm_compute. reflexivity.
+Qed.
+Print Assumptions C05_agg_loop_binding_forward_edge_refuted.
+
+(* F5c (open): "each reference on a command line is rewritten to its own instance" is false of the sequential
+   substitution when the later reference text occurs word-bounded inside the earlier one: looped components
+   "a-b" and "b", command line "a-b:ref b:ref", iteration 0 at stage 1. *)
+Theorem C05_sequential_substitution_refuted :
+  exists (n1 n2 : string) (S i : N), In (n1, n2) name_pairs /\ overlap n1 n2 = true /\
+    rewritten S i n1 n2 = "stage1.0#a-stage1.0#b:ref b:ref"%string /\
+    intended S i n1 n2 = "stage1.0#a-b:ref stage1.0#b:ref"%string.
+Proof.
+  exists "a-b"%string, "b"%string, 1%N, 0%N. split; [vm_compute; tauto|]. vm_compute. repeat split.
+Qed.
+Print Assumptions C05_sequential_substitution_refuted.
